@@ -9,6 +9,7 @@ RULES = {
     "C14.R1": "validation matrix: every non-raising path of each quantization entry point has passed the guard that rejects the unsupported configuration",
     "C14.R2": "configuration rejections raise ValueError (not assert, TypeError, ...)",
     "C14.R5": "an accepted configuration is fully honoured: the tensor returned satisfies the pipeline / geometry / range rules of C01.R1, C01.R5, C02.R1, C02.R2, C03.R1, C03.R2, C03.R5 and C06.R7 (re-checked here under this id)",
+    "C14.R6": "a dimension of size one is a supported shape (Linear(n, 1), Conv2d with one output channel): a quantizer that refuses an axis of size one is only reached from quantize_weight on paths that have rewritten such an axis to per-tensor",
     "C14.R3": "group-size post-condition: a non-None weight_group_size is only produced under in_features % group_size == 0, with in_features = weight.numel() // weight.shape[0]; the selection is repeated wherever weight_qtype is reassigned (the configuration in force is the one honoured)",
     "C14.R4": "qtypes given by name are looked up in `qtypes` for both weights and activations",
 }
@@ -197,8 +198,73 @@ def run(chk):
     grouping_condition(chk, "C14.R1")  # a valid group size is honoured by the optimizer and the quantizer alike
     from .c10 import derived_state
     derived_state(chk, rule="C14.R3")  # the selected group size follows every reassignment of the weight qtype
+    size_one_axis(chk)
     qtype_by_name(chk)
     chk.assume("parameter positions of the public quantization entry points are part of the API (names are read from the signatures)")
+
+
+def _size_one_atom(a: str, tensor: str, axis: str) -> bool:
+    a = a.replace(" ", "")
+    return a in (f"{tensor}.shape[{axis}]==1", f"{tensor}.size({axis})==1", f"{tensor}.size()[{axis}]==1", f"{tensor}.shape[{axis}]<2", f"{tensor}.shape[{axis}]<=1", f"{tensor}.size({axis})<2", f"{tensor}.size({axis})<=1")
+
+
+def size_one_axis(chk):
+    """C14.R6.  Every module shape is in the quantifier, so `shape[axis] == 1` alone is never a reason to refuse.  The symmetric quantizer does refuse it
+    (per-axis along a single index is per-tensor, and it wants to be told so): quantize_weight rewrites the axis before it calls that quantizer.
+    Whatever quantizer carries such a refusal needs the rewrite on every path of quantize_weight that reaches it."""
+    repo = chk.repo
+    mi, qw = repo.func("quantize_weight")
+    t, qt, ax = positional_params(qw)[:3]
+    n = 0
+    for cname in ("SymmetricQuantizer", "AffineQuantizer"):
+        ci = repo.cls(cname)
+        fwd = ci.own("forward") if ci is not None else None
+        if fwd is None:
+            continue
+        n += 1
+        ps_ = positional_params(fwd)
+        base, axis_p = ps_[1], ps_[3]
+        refusals = []
+        for p in paths_of(fwd):
+            if p.end[0] != "raise" or not p.conds:
+                continue
+            c, tr, line = p.conds[-1]
+            if any(pol is True and _size_one_atom(a, base, axis_p) for a, pol in atoms(c, tr)):
+                refusals.append(p.end[2])
+        if not refusals:
+            chk.ok("C14.R6", f"{ci.mod.rel}:{fwd.lineno}", f"{cname}.forward accepts a quantization axis of size one")
+            continue
+        # the callers: paths of quantize_weight that return <cname>.apply(t, qtype, axis, ...)
+        n_call = 0
+        for p in paths_of(qw):
+            e = p.end[1]
+            if p.end[0] != "return" or not (isinstance(e, ast.Call) and U(e.func) == f"{cname}.apply" and len(e.args) >= 3):
+                continue
+            n_call += 1
+            axis_arg = U(e.args[2])
+            rewritten = axis_arg == "None"
+            excluded = False
+            for c, tr, _ in p.conds:
+                core = c
+                pol = tr
+                while isinstance(core, ast.UnaryOp) and isinstance(core.op, ast.Not):
+                    core, pol = core.operand, not pol
+                if pol is False and isinstance(core, ast.BoolOp) and isinstance(core.op, ast.And):
+                    vals = [U(v) for v in core.values]
+                    if any(_size_one_atom(v, t, ax) for v in vals) and all(_size_one_atom(v, t, ax) or v.replace(" ", "") == f"{ax}isnotNone" for v in vals):
+                        excluded = True
+                elif pol is False and _size_one_atom(U(core), t, ax):
+                    excluded = True
+                elif (pol is False and U(core).replace(" ", "") == f"{ax}isnotNone") or (pol is True and U(core).replace(" ", "") == f"{ax}isNone"):
+                    excluded = True  # no axis at all on this path: the per-axis guards of the quantizer are not reached
+                elif pol is True and U(core).replace(" ", "") in (f"{t}.shape[{ax}]>1", f"{t}.shape[{ax}]!=1", f"{t}.shape[{ax}]>=2"):
+                    excluded = True
+            chk.require("C14.R6", f"{mi.rel}:{p.end[2]}", rewritten or excluded, f"quantize_weight reaches {cname} (which refuses an axis of size one at line {refusals[0]}) only after rewriting such an axis to per-tensor "
+                        f"(axis argument `{axis_arg}`; path: {' & '.join(p.cond_texts())[:120]})", "quantize_weight", f"size-one axis reaches {cname}",
+                        "quantize_weight(torch.randn(1, 64), qint4, axis=0): ValueError - QLinear.from_module(Linear(64, 1), weights=qint4) and Conv2d with one output channel can no longer be quantized")
+        if n_call == 0:
+            chk.ok("C14.R6", f"{ci.mod.rel}:{fwd.lineno}", f"{cname}.forward refuses an axis of size one and is not called by quantize_weight")
+    chk.floor("C14.R6", n, 2, "quantizer classes scanned for a size-one refusal")
 
 
 def group_size_rule(chk):
